@@ -149,7 +149,7 @@ struct C12 : Prop {
 		}
 		se.set("phases", phs);
 		J ss = J::arr(); ss.push(se); plan.set("sessions", ss);
-		plan.set("sched", sched_json(r, tier, 1, false));
+		{ J sc = sched_json(r, tier, 1, false); cfg::starve_after_startup(sc, r); plan.set("sched", sc); }
 		return plan;
 	}
 
